@@ -36,6 +36,12 @@ CHECKS = {
  "C12": dict(cat="exploration", ref="5 (C12)", technique="round-trip property testing of LogWriter/LogReader with an enumerated block-boundary family",
    text="Round-trip through the real LogWriter/LogReader over generated record-length lists, writer re-open points, writer death between fragments and final truncation at any byte, with an independent model of the block layout; the block-boundary arithmetic (offsets within 20 bytes of a boundary x lengths within 20 bytes of the remaining room) is enumerated completely in the thorough tier.",
    note="Reached through wrappers in src/verif.rs; checksum corruption is C15's subject, not C12's."),
+ "C13": dict(cat="exploration", ref="5 (C13)", technique="round-trip property testing of TableBuilder/Table against the sorted entry list (iteration, seek, point lookup, cursor walks)",
+   text="Generated sorted runs of internal entries over the special-shape key pool and block sizes from 1 byte to 1 MiB are written by the real TableBuilder and read back by the real Table/TwoLevelIterator: block contents, forward/backward iteration, seek to every entry/between/before/after, get(user key, bound) -> value/deleted/not-in-file, and random cursor walks are compared with the entry list.",
+   note="Reached through wrappers in src/verif.rs. Values up to ~6 kB; larger multi-block values are exercised through the database-level checks."),
+ "C14": dict(cat="exploration", ref="5 (C14)", technique="property testing of filter membership (public policy API; table filter blocks with Bloom and an exact-set policy)",
+   text="Policy level: every member of generated key sets (0-3000 keys, bits_per_key 1-64) and of an exhaustive length x bits family must answer may-match. Table level: for every data block offset and every user key in that block the table's filter block must answer may-match, with the Bloom policy and with an exact-set policy that turns builder/reader range disagreements into deterministic false negatives.",
+   note="False positives are allowed by the property and not measured."),
  "C15": dict(cat="fault_enumeration", ref="3 (C15)", technique="corruption enumeration (bit flips / byte replacement at enumerated offsets of every persistent file, table truncations) against a written-values oracle",
    text="Small multi-level images (tiny blocks, compressible and raw blocks, multi-record manifest, live WAL with multi-key batches) are built by generated workloads; every persistent file is damaged at enumerated offsets (quick: 2 mutations per offset of CURRENT/manifest/WAL/table tails, every 3rd offset elsewhere; thorough: 11 mutations at every offset and every table truncation) and the copy is opened with a fresh cache: open fails, or every get/scan returns what was written or an error; WAL damage may skip records atomically. Invented values are always violations.",
    note="Two open known findings exclude (and count) stale/missing results: iterator-step error swallowing (counter signature) and unchecksummed manifest fragment header bytes (offset signature). Panics on damaged input are counted as detected-ungraceful, not as violations. Corruption is applied while the database is closed."),
